@@ -13,6 +13,7 @@ import Lockable.Props.C01
 import Lockable.Props.C02
 import Lockable.Props.C04
 import Lockable.Proofs.SpecTrace
+import Lockable.Proofs.Closed
 namespace Lockable
 
 /-- the key is neither locked nor awaited: no guard for it, and no pending acquisition was handed or is queued for it -/
@@ -276,5 +277,17 @@ example :
        .cleanupFailed 2, .cancel 3, .stamp 1, .release 1, .acquire 4, .gop 4 .remove] =
       [.acquire 1 7, .write 1 7 (some 5), .wait 3 7, .wait 4 7, .leave 3 7, .release 1 7, .grant 4 7, .write 4 7 none] := by
   decide
+
+/-- … at the level of public API calls (any call sequence: all variants, limits with any callback script, streams, expiry): the
+state reached is the abstraction of an execution of the atomic specification, -/
+theorem C05_linearizable_api (kind : Kind) (cs : List Call) :
+    ∃ es, applyEvs Spec.init es = some (absSpec (cs.foldl (fun a c => (a.exec c).1) (Api.init kind)).s) :=
+  api_transfer kind (fun s => ∃ es, applyEvs Spec.init es = some (absSpec s)) (fun as => ⟨_, lin_reachable kind as⟩) cs
+
+/-- … and for every schedule of every set of thread programs of the scheduled interpreter. -/
+theorem C05_linearizable_sched (kind : Kind) (threads : List Thread) (sched : List Nat) :
+    ∃ es, applyEvs Spec.init es =
+      some (absSpec (sched.foldl (fun sc t => (sc.step t).1) ({ s := State.init kind, threads := threads } : Sched)).s) :=
+  sched_transfer kind (fun s => ∃ es, applyEvs Spec.init es = some (absSpec s)) (fun as => ⟨_, lin_reachable kind as⟩) threads sched
 
 end Lockable
